@@ -165,12 +165,24 @@ Proof.
     destruct l as [|x1 [|x2 [|x3 l]]]; reflexivity.
 Qed.
 
-(* unpacking one element: scalars, where Core's reading (through itervalues) is right *)
-Lemma unpack2_scalar rt x : IterLaws P E rt -> C.is_scalar x = true -> scalar_unpack_ok (emb x) = true ->
+(* unpacking one element: scalars, by the runtime's unpack_scalar *)
+Lemma unpack2_scalar rt x : IterLaws P E rt -> C.is_scalar x = true ->
   rmap emb2 (C.unpack2 rt x) = down (unpackI (emb x)).
 Proof.
+  intros L Hs. destruct x; try discriminate; exact (il_unpack P E rt L _ Hs).
+Qed.
+
+Lemma unpack2_all rt x : IterLaws P E rt -> rmap emb2 (C.unpack2 rt x) = down (unpackI (emb x)).
+Proof.
+  intros L. destruct (C.is_scalar x) eqn:Hs; [exact (unpack2_scalar rt x L Hs) | exact (unpack2_emb rt x Hs)].
+Qed.
+
+(* the previous definition (scalars through itervalues), where it was right *)
+Lemma unpack2_pinned_scalar rt x : IterLaws P E rt -> C.is_scalar x = true -> scalar_unpack_ok (emb x) = true ->
+  rmap emb2 (unpack2_pinned rt x) = down (unpackI (emb x)).
+Proof.
   intros L Hs Hok.
-  assert (Hu : C.unpack2 rt x =
+  assert (Hu : unpack2_pinned rt x =
                C.bind (C.values_scalar rt x) (fun l => match l with [a; b] => C.Ok (a, b) | _ => C.Raise C.EValue end))
     by (destruct x; try discriminate; reflexivity).
   rewrite Hu. clear Hu.
@@ -345,47 +357,30 @@ Proof.
     rewrite (map_combine emb emb). rewrite !map_map. reflexivity.
 Qed.
 
-(* the corrected function: no condition on the elements *)
-Lemma items_fixed_commute rt us v : IterLaws P E rt -> UnpackLaw P E us -> io_guard P E v = true ->
-  rmap (map emb2) (iteritems_fixed E rt us v) = down (xitems (emb v)).
-Proof.
-  intros L HU G.
-  destruct v as [a|f|k [|x r]|k l|c l|c l]; try (apply (nonseq_items_commute rt _ L G); exact I).
-  cbn [iteritems_fixed]. apply (seq_items_commute rt (unpack2_fixed rt us) k x r L).
-  intros _ y _. destruct (C.is_scalar y) eqn:Hs.
-  - destruct y; try discriminate; exact (HU _ Hs).
-  - destruct y; try discriminate; exact (unpack2_emb rt _ Hs).
-Qed.
-
-(* Core's own function: right wherever its reading of scalar unpacking is *)
-Lemma items_commute rt v : IterLaws P E rt -> io_guard P E v = true -> unpack_guard P E v = true ->
+(* Core.iteritems: every value, no condition on the elements *)
+Lemma items_commute rt v : IterLaws P E rt -> io_guard P E v = true ->
   rmap (map emb2) (C.iteritems rt E v) = down (xitems (emb v)).
 Proof.
-  intros L G HG.
+  intros L G.
   destruct v as [a|f|k [|x r]|k l|c l|c l]; try (apply (nonseq_items_commute rt _ L G); exact I).
   cbn [C.iteritems]. apply (seq_items_commute rt (C.unpack2 rt) k x r L).
-  intros Hp y Hy. cbn [unpack_guard] in HG. rewrite <- (pairlike_emb rt L x), Hp in HG. cbn [negb orb] in HG.
-  rewrite forallb_forall in HG. specialize (HG y Hy). destruct (C.is_scalar y) eqn:Hs.
-  - cbn [negb orb] in HG. exact (unpack2_scalar rt y L Hs HG).
-  - exact (unpack2_emb rt y Hs).
+  intros _ y _. exact (unpack2_all rt y L).
 Qed.
 
-(* on every input where Core's unpacking is right the corrected function IS Core's *)
-Lemma items_fixed_agrees rt us v : IterLaws P E rt -> UnpackLaw P E us -> unpack_guard P E v = true ->
-  rmap (map emb2) (iteritems_fixed E rt us v) = rmap (map emb2) (C.iteritems rt E v).
+(* the previous definition is Core's wherever its reading of scalar unpacking was right *)
+Lemma items_pinned_agrees rt v : IterLaws P E rt -> unpack_guard P E v = true ->
+  rmap (map emb2) (iteritems_pinned E rt v) = rmap (map emb2) (C.iteritems rt E v).
 Proof.
-  intros L HU HG.
+  intros L HG.
   destruct v as [a|f|k [|x r]|k l|c l|c l]; try reflexivity.
-  cbn [iteritems_fixed C.iteritems]. destruct (C.pairlike rt x) eqn:Hp; [|reflexivity].
+  cbn [iteritems_pinned C.iteritems]. destruct (C.pairlike rt x) eqn:Hp; [|reflexivity].
   cbn [unpack_guard] in HG. rewrite <- (pairlike_emb rt L x), Hp in HG. cbn [negb orb] in HG.
   rewrite forallb_forall in HG.
-  rewrite (mapM_commute (unpack2_fixed rt us) unpackI emb emb2 (x :: r)).
+  rewrite (mapM_commute (unpack2_pinned rt) unpackI emb emb2 (x :: r)).
   - symmetry. apply (mapM_commute (C.unpack2 rt) unpackI emb emb2 (x :: r)).
-    intros y Hy. specialize (HG y Hy). destruct (C.is_scalar y) eqn:Hs.
-    + exact (unpack2_scalar rt y L Hs HG).
-    + exact (unpack2_emb rt y Hs).
-  - intros y Hy. destruct (C.is_scalar y) eqn:Hs.
-    + destruct y; try discriminate; exact (HU _ Hs).
+    intros y _. exact (unpack2_all rt y L).
+  - intros y Hy. specialize (HG y Hy). destruct (C.is_scalar y) eqn:Hs.
+    + cbn [negb orb] in HG. exact (unpack2_pinned_scalar rt y L Hs HG).
     + destruct y; try discriminate; exact (unpack2_emb rt _ Hs).
 Qed.
 
@@ -396,11 +391,10 @@ Proof.
   intros L G Hs. rewrite (values_commute rt v L G), (xvalues_guarded _ (guard_emb v G Hs)). reflexivity.
 Qed.
 
-Lemma items_spec rt v : IterLaws P E rt -> io_guard P E v = true -> unpack_guard P E v = true ->
-  C.is_scalar v = false ->
+Lemma items_spec rt v : IterLaws P E rt -> io_guard P E v = true -> C.is_scalar v = false ->
   rmap (map emb2) (C.iteritems rt E v) = down (imapM unpackI (I.spec_items (emb v))).
 Proof.
-  intros L G HG Hs. rewrite (items_commute rt v L G HG). unfold xitems.
+  intros L G Hs. rewrite (items_commute rt v L G). unfold xitems.
   rewrite (xitems_raw_guarded _ (guard_emb v G Hs)). reflexivity.
 Qed.
 
@@ -411,10 +405,7 @@ Lemma items_spec_pairs rt v : IterLaws P E rt -> io_guard P E v = true -> C.is_s
   rmap (map emb2) (C.iteritems rt E v) = C.Ok (I.spec_pairs (emb v)).
 Proof.
   intros L G Hs Hnp.
-  assert (HG : unpack_guard P E v = true).
-  { destruct v as [a|f|k [|x r]|k l|c l|c l]; try reflexivity. cbn [unpack_guard].
-    destruct Hnp as [Hnp|[]]. cbn [IoBridge.emb I.elems map I.first_is_pair] in Hnp. rewrite Hnp. reflexivity. }
-  rewrite (items_spec rt v L G HG Hs).
+  rewrite (items_spec rt v L G Hs).
   assert (Hsp : I.spec_items (emb v) = map IL.tup' (I.spec_pairs (emb v))).
   { destruct v as [a|f|k l|k l|c l|c l]; try discriminate; try reflexivity.
     - destruct Hnp as [Hnp|[]]. unfold I.spec_items. cbn [IoBridge.emb] in *. rewrite Hnp. reflexivity.
@@ -475,9 +466,18 @@ Proof.
   - cbn [map]. rewrite Hm, Hemb. reflexivity.
 Qed.
 
+Lemma induced_unpack v : C.is_scalar v = true ->
+  rmap emb2 (ind_unpack P E i_back v) = down (unpackI (emb v)).
+Proof.
+  intros Hs. unfold ind_unpack. destruct (unpackI (emb v)) as [[a b]|e|] eqn:Hx; try reflexivity.
+  destruct (bl_unpack P E i_back BL v a b Hs Hx) as [Ha Hb].
+  destruct (back2_defined_one a b Ha Hb) as [kv [Hkv Hemb]].
+  cbn [down C.bind]. rewrite Hkv. cbn [rmap]. rewrite Hemb. reflexivity.
+Qed.
+
 Lemma induced_iter_laws T srt base : IterLaws P E (io_runtime P E i_back T srt base).
 Proof.
-  constructor; cbn [io_runtime C.values_scalar C.items_scalar C.pairlike_scalar C.index].
+  constructor; cbn [io_runtime C.values_scalar C.items_scalar C.pairlike_scalar C.unpack_scalar C.index].
   - intros v Hs. unfold ind_values. destruct (xvalues (emb v)) as [l|e|] eqn:Hx; try reflexivity.
     destruct (back1_defined l (bl_values P E i_back BL v l Hs Hx)) as [l0 [H0 Hm]].
     cbn [down C.bind]. rewrite H0. cbn [rmap]. rewrite Hm. reflexivity.
@@ -485,17 +485,11 @@ Proof.
     destruct (back2_defined l (bl_items P E i_back BL v l Hs Hx)) as [l0 [H0 Hm]].
     cbn [down C.bind]. rewrite H0. cbn [rmap]. rewrite Hm. reflexivity.
   - reflexivity.
+  - exact induced_unpack.
   - intros i. unfold ind_index. destruct (bl_index P E i_back BL i) as [v Hv]. rewrite Hv.
     exact (bl_sound P E i_back BL _ v Hv).
 Qed.
 
-Lemma induced_unpack_law : UnpackLaw P E (ind_unpack P E i_back).
-Proof.
-  intros v Hs. unfold ind_unpack. destruct (unpackI (emb v)) as [[a b]|e|] eqn:Hx; try reflexivity.
-  destruct (bl_unpack P E i_back BL v a b Hs Hx) as [Ha Hb].
-  destruct (back2_defined_one a b Ha Hb) as [kv [Hkv Hemb]].
-  cbn [down C.bind]. rewrite Hkv. cbn [rmap]. rewrite Hemb. reflexivity.
-Qed.
 End Induced.
 
 (* ------------------------------------------------------------------ load *)
